@@ -54,3 +54,30 @@ package grpc
 
 //@ lemma c18_grpc_table_total property C18: forall f Bool, to Bool, tmp Bool :: grpcTable(f, to, tmp) == 14 || grpcTable(f, to, tmp) == 4 || grpcTable(f, to, tmp) == 13 || grpcTable(f, to, tmp) == 2
 //@ lemma c18_grpc_never_ok property C18: forall f Bool, to Bool, tmp Bool :: grpcTable(f, to, tmp) != 0
+
+// ---- unary handler: decode, then endpoint, then encode (C10) ------------------------------------
+// "Messages that violate the design's constraints are rejected before user code runs": the endpoint is invoked
+// only when there is no decoder or the decoder accepted the request, and it receives the decoded request;
+// a request the decoder rejects is answered with an error and never reaches the endpoint.
+//@ ghost spec var decCount Int
+//@ ghost spec var lastDecErr Iface
+//@ ghost spec var lastDecReq Iface
+//@ ghost spec var epCount Int
+//@ func (*unaryHandler).Handle
+//@   params h ctx reqpb
+//@   property C10
+//@   requires h != nil
+//   -- the counters are specification state: a call starts counting at zero
+//@   requires decCount == 0 && epCount == 0
+//@   callspec decoder params c r m
+//@       ensures decCount == old(decCount) + 1 && lastDecErr == result1 && lastDecReq == result0
+//@       modifies decCount, lastDecErr, lastDecReq
+//@   callspec endpoint params c r
+//@       requires* only.after.successful.decode: h.decoder == 0 || (decCount == 1 && lastDecErr == nil && r == lastDecReq)
+//@       ensures epCount == old(epCount) + 1
+//@       modifies epCount
+//@   callspec encoder params c v hd tr
+//@       modifies mapOf(load(hd)), mapOf(load(tr)), cell(hd), cell(tr)
+//@   ensures* rejected.requests.stop.here: old(h.decoder) != 0 && lastDecErr != nil ==> result1 != nil && epCount == 0
+//@   ensures* endpoint.once: result1 == nil ==> epCount == 1 && (old(h.decoder) != 0 ==> decCount == 1)
+//@   modifies all
